@@ -192,6 +192,22 @@ func readRequest(et int8, r io.Reader, raw *simio.Reader) reqOutcome {
 	})
 }
 
+// skipBody is a stream.BodyReader that skips the request struct instead of decoding it.
+type skipBody struct{}
+
+func (skipBody) Decode(sr stream.Reader) error { return sr.Skip(wire.TStruct) }
+
+func readRequestSkipping(et int8, r io.Reader) reqOutcome {
+	return guardReq(func() reqOutcome {
+		rw, err := binary.Default.ReadRequest(context.Background(), wire.EnvelopeType(et), r, skipBody{})
+		if err != nil {
+			return reqOutcome{err: err.Error()}
+		}
+		k, n, s := classify(rw)
+		return reqOutcome{ok: true, kind: k, name: n, seqid: s, resp: rw}
+	})
+}
+
 // checkReply decodes the reply bytes the way a client of framing f would and
 // compares with what the server was asked to send.
 func checkReply(res *world.Result, tag string, req request, reply []byte, replyType int8, replyBody ref.Val) {
@@ -533,6 +549,23 @@ func c12ClientServer(res *world.Result, logf func(string, ...interface{}), h *wo
 		raw.Budget = budgetFor(len(data))
 		out = readRequest(et, r, raw)
 		pipelined(res)
+		if out.panic == "" && !out.budget && simrt.Flip("cs.skip-body", 0.35) {
+			// a server that does not care for the body skips it: same verdict, same responder
+			plan2 := simio.GenPlan(len(data), false)
+			plan2.Start = start
+			r2, raw2 := simio.NewReader(data, plan2)
+			raw2.Budget = budgetFor(len(data))
+			sk := readRequestSkipping(et, r2)
+			res.Count("c12.requests-read-with-a-skipping-body-reader", 1)
+			if sk.panic != "" {
+				res.Failf("C12/panic", "ReadRequest (body skipped) over %s panicked on %s: %s", plan2, req, sk.panic)
+				return
+			}
+			if sk.ok != out.ok || (sk.ok && (sk.kind != out.kind || sk.name != out.name || sk.seqid != out.seqid)) {
+				res.Failf("C12/skip-body-disagrees", "%s: body decoded -> %s, body skipped (over %s) -> %s", req, out, plan2, sk)
+				return
+			}
+		}
 		if out.ok {
 			w := simio.NewWriter(-1)
 			if rw, ok := out.resp.(stream.ResponseWriter); ok {
